@@ -101,6 +101,18 @@ def load_refusals():
     return {k: set(v["checks"]) for k, v in d.items() if isinstance(v, dict)}
 
 
+def load_features():
+    """{patch id: {check: [rule ids]}} from refactors/FEATURES.json: additive
+    feature patches whose *new* API surface no longer satisfies a property as
+    stated (existing calls behave as before).  The named check is expected to
+    report it (exit 1 under one of the named rules); silence would be a miss."""
+    p = os.path.join(V, "refactors", "FEATURES.json")
+    if not os.path.exists(p):
+        return {}
+    d = json.load(open(p, encoding="utf-8"))
+    return {k: dict(v["reports"]) for k, v in d.items() if isinstance(v, dict)}
+
+
 def load_expect():
     if os.path.exists(EXPECT):
         return json.load(open(EXPECT, encoding="utf-8"))
@@ -122,6 +134,7 @@ def run_for_property(prop, verbose=True, jobs=None):
     bad, stale = [], []
     n_ref = n_seed = n_refused = 0
     refusals = load_refusals()
+    features = load_features()
     for kind, pid, st, res in results:
         if st != "ran":
             stale.append(pid)
@@ -129,6 +142,12 @@ def run_for_property(prop, verbose=True, jobs=None):
         code, msg = res.get(prop, (0, ""))
         if kind == "refactor":
             n_ref += 1
+            want = features.get(pid, {}).get(prop)
+            if want:
+                # the patch's new API breaks the property as stated: must be reported
+                if not (code == 1 and any(r in msg for r in want)):
+                    bad.append(f"feature patch {pid}: expected a report under {want}, got exit {code}: {msg[:120]}")
+                continue
             if code == 2 and prop in refusals.get(pid, ()):
                 n_refused += 1  # documented: outside the analysable fragment
             elif code != 0:
